@@ -68,6 +68,14 @@ type zzTxSpec struct {
 	created, time, net, chain uint64
 }
 
+// zzValidEnvelopeSpec: sender/recipient/amount/fee symbolic, the envelope (network, chain, created
+// height, time, signer = sender) valid - C06 and C05 quantify over the envelope, C07 over the money.
+func zzValidEnvelopeSpec(name string) zzTxSpec {
+	from := zzConcrete(zzInt(name+".from"), 0, 2)
+	return zzTxSpec{from: from, to: zzConcrete(zzInt(name+".to"), 0, 2), signer: from,
+		amount: zzN64(name + ".amount"), fee: zzN64(name + ".fee"), created: 10, time: 1, net: 1, chain: 1}
+}
+
 func zzSendSpec(name string) zzTxSpec {
 	return zzTxSpec{
 		from: zzConcrete(zzInt(name+".from"), 0, 2), to: zzConcrete(zzInt(name+".to"), 0, 2), signer: zzConcrete(zzInt(name+".signer"), 0, 2),
@@ -99,11 +107,11 @@ func zzBalances(sm *StateMachine) (out [5]uint64) {
 	return
 }
 
-//zz:harness mode=int unwind=60 maxpaths=40000 timebudget=1500
+//zz:harness mode=int unwind=60 maxpaths=200000 timebudget=3000 tier=thorough replay=model
 //zz:reach C07.t1-failed C07.t1-ok
 func ZZ_C07_failed_tx_leaves_no_trace() {
 	w := zzWorldValues()
-	s1, s2 := zzSendSpec("t1"), zzSendSpec("t2")
+	s1, s2 := zzValidEnvelopeSpec("t1"), zzValidEnvelopeSpec("t2")
 	// run 1: block [t1, t2]
 	smA, stA := zzBuildWorld(w)
 	t1, t2 := zzSendTxBytes(s1), zzSendTxBytes(s2)
@@ -128,5 +136,39 @@ func ZZ_C07_failed_tx_leaves_no_trace() {
 		zzAssert("C07.no-events-leak", len(rA.Events) == len(rB.Events))
 	} else {
 		zzReach("C07.t1-ok")
+	}
+}
+
+// Single transaction: a failed transaction - whatever step fails: the checks, fee deduction, the
+// debit, the credit - leaves the store byte-for-byte as it was, the balances seen through the
+// caches unchanged, no events, and the FSM back on its original store; a successful one is flushed.
+//
+//zz:harness mode=int unwind=60 maxpaths=60000 timebudget=1200 replay=model
+//zz:reach C07.single.failed C07.single.ok
+func ZZ_C07_single_failed_tx_rolls_back() {
+	w := zzWorldValues()
+	sm, st := zzBuildWorld(w)
+	snapshot := &zzStore{}
+	snapshot.kv = append(snapshot.kv, st.kv...)
+	before := zzBalances(sm)
+	t1 := zzSendTxBytes(zzValidEnvelopeSpec("t1"))
+	r := &lib.ApplyBlockResults{}
+	if sm.ApplyTransactions(context.Background(), [][]byte{t1}, r, false) != nil {
+		return
+	}
+	zzAssert("C07.single.fsm-back-on-original-store", sm.store == lib.RWStoreI(st))
+	if len(r.Failed) == 1 {
+		zzReach("C07.single.failed")
+		zzAssert("C07.single.store-unchanged", zzSameKV(st, snapshot))
+		zzAssert("C07.single.cached-balances-unchanged", zzBalances(sm) == before)
+		zzAssert("C07.single.no-events", len(r.Events) == 0 && len(r.Results) == 0)
+		sm.ResetCaches()
+		zzAssert("C07.single.stored-balances-unchanged", zzBalances(sm) == before)
+	} else {
+		zzReach("C07.single.ok")
+		zzAssert("C07.single.one-result", len(r.Results) == 1)
+		cached := zzBalances(sm)
+		sm.ResetCaches()
+		zzAssert("C07.single.cache-agrees-with-store", zzBalances(sm) == cached)
 	}
 }
